@@ -519,6 +519,52 @@ pub fn judge_bytes(b: &[u8], case: Value) -> (String, Option<Violation>) {
     }
 }
 
+/// Wire shapes our own encoder never produces but the decoder accepts: several OPT records in one
+/// message, OPT records between other additional records, OPT records that differ.  What the decoder
+/// makes of them must survive its own encoder.
+fn family_wire_shapes(rep: &mut Report, g: &mut Gen) {
+    let q = rd::name("w.example");
+    let a = |i: u8| Rr { name: rd::name("ns.w.example"), rtype: rd::T_A, class: 1, ttl: 60, rdata: Rdata::Raw(vec![10, 0, 0, i]) };
+    let alphabet: Vec<Rr> = vec![
+        a(1),
+        a(2),
+        rd::opt_rr(1232, 0, 0, false, vec![]),
+        rd::opt_rr(4096, 0, 0, true, vec![]),
+        rd::opt_rr(512, 1, 0, false, vec![(3, vec![0x6e, 0x73])]),
+        rd::opt_rr(1232, 0, 0, false, vec![(10, vec![1, 2, 3, 4, 5, 6, 7, 8])]),
+    ];
+    let mut lists: Vec<Vec<usize>> = vec![vec![]];
+    let mut level: Vec<Vec<usize>> = vec![vec![]];
+    for _ in 0..3 {
+        let mut next = vec![];
+        for l in &level {
+            for i in 0..alphabet.len() {
+                let mut m = l.clone();
+                m.push(i);
+                next.push(m);
+            }
+        }
+        lists.extend(next.iter().cloned());
+        level = next;
+    }
+    let outs: Vec<(String, Option<Violation>)> = lists
+        .par_iter()
+        .map(|l| {
+            let m = Msg { id: 0x4242, flags: 0x8180, question: vec![(q.clone(), rd::T_A, 1)], answer: vec![a(9)], authority: vec![], additional: l.iter().map(|i| alphabet[*i].clone()).collect() };
+            let b = rd::encode(&m, true);
+            let case = json!({"engine":"c14","family":"bytes","bytes":crate::common::util::hex(&b),"shape":"additional","records":l});
+            judge_bytes(&b, case)
+        })
+        .collect();
+    for (c, v) in outs {
+        g.evals += 1;
+        g.classes.insert(format!("wire-shape:{c}"));
+        if let Some(v) = v {
+            rep.violation(v.sig("family", "wire-shapes"));
+        }
+    }
+}
+
 fn family_mutations(rep: &mut Report, g: &mut Gen, thorough: bool) {
     let mut bases = std::mem::take(&mut g.bases);
     bases.sort();
@@ -601,11 +647,12 @@ pub fn run(tier: &str, replay: Option<Value>) -> ! {
     let e3 = g.evals;
     family_header(&mut rep, &mut g);
     let e4 = g.evals;
+    family_wire_shapes(&mut rep, &mut g);
     family_mutations(&mut rep, &mut g, thorough);
     let e5 = g.evals;
     rep.cov("evaluations", g.evals);
     rep.cov("distinct_nontrivial", g.classes.len() as u64);
-    rep.cov("rule", "structured: every (question, section, type, owner, rdata-name[s]) over names of depth<=2 (thorough 3) on labels {a,b,63x}; every 3-record sequence over an 8-record alphabet x section split; for every name-carrying type and name slot a new name written in record data and one of 5 suffix shapes of it used by a second record (owner or either rdata slot, 7 types) x 3 questions x 3 section pairs; names extending one another label by label to every chain length 1..127 (3 shapes); name first written at every offset 0x3fe0..0x4020, 0xff80..0xffb0 (+ sweep) x 5 follow-ups; header/EDNS product. bytes: base encodings x every offset x byte values (quick 14 boundary values, thorough all 256) + own-offset + every truncation. distinct = (family, size class, pointer count / acceptance shape) classes");
+    rep.cov("rule", "structured: every (question, section, type, owner, rdata-name[s]) over names of depth<=2 (thorough 3) on labels {a,b,63x}; every 3-record sequence over an 8-record alphabet x section split; for every name-carrying type and name slot a new name written in record data and one of 5 suffix shapes of it used by a second record (owner or either rdata slot, 7 types) x 3 questions x 3 section pairs; names extending one another label by label to every chain length 1..127 (3 shapes); name first written at every offset 0x3fe0..0x4020, 0xff80..0xffb0 (+ sweep) x 5 follow-ups; header/EDNS product. bytes: every additional section of <=3 records over {2 address records, 4 differing OPT records} (several OPT records, OPT between other records) encoded by the reference encoder; base encodings x every offset x byte values (quick 14 boundary values, thorough all 256) + own-offset + every truncation. distinct = (family, size class, pointer count / acceptance shape) classes");
     rep.cov("exhaustive", true);
     rep.cov("parts", json!({"single": e1, "multi": e2 - e1, "boundary": e3 - e2, "header": e4 - e3, "bytes": e5 - e4}));
     let mut samples = pick_samples(&g.samples, 4, rep.seed);
